@@ -13,9 +13,15 @@
                        net bits joined by .conn statements - any number of them, in any order relative
                        to the statements that use the nets, through any chain; bus bits x[3], unconn,
                        constants as plain names - exactly as the reader treats them), the library, the
-                       port directions; undeclared definitions are leaf primitives.  Outside the
-                       supported subset the statement is refuted (C18_sound_refuted_*: statement lines
-                       the reader silently skips).
+                       port directions; undeclared definitions are leaf primitives.
+                       Since the repair of the peeking loops of the reader (peek_statement) comment lines and
+                       blank lines may stand anywhere, a trailing "# ..." ends a statement line in the
+                       tokenizer, and the last model need not be closed by .end: the former refutations
+                       C18_sound_refuted_header_gap / _comment_in_info are the positive Examples
+                       C18_header_gap_repaired, C18_comment_in_info_repaired, C18_gaps_faithful,
+                       C18_no_final_end_faithful.  [supported] still asks: .inputs lines before .outputs
+                       lines before .clock lines before the other statements (hdr_sorted; the reader itself
+                       takes them in any order: C18_outputs_first_reads), .latch with 2, 4 or 5 operands.
                        Since the repair of merge_wires (.conn a b lets wire a take the pins of wire b and
                        remembers that b stands for a, instead of inventing a cable a_i_b_j and throwing
                        both wires away) [supported] asks nothing of .conn any more: the conditions
@@ -128,15 +134,75 @@ Example C18_supported_example : supported doc_flat = true /\ supported doc_black
 Proof. exact (conj doc_flat_supported doc_blackbox_supported). Qed.
 Print Assumptions C18_supported_example.
 
-(* outside the subset the reader accepts the file and builds something else: a comment line
-   between an instance and its .cname loses the name; a blank line after .model loses the ports *)
-Theorem C18_sound_refuted_comment_in_info : exists d n, supported d = false /\ elab d = Ok n /\ ~ denote d n.
-Proof. exact sound_refuted_comment_in_info. Qed.
-Print Assumptions C18_sound_refuted_comment_in_info.
+(* REPAIRED (were C18_sound_refuted_header_gap and C18_sound_refuted_comment_in_info, and the open findings
+   header-gap-drops-ports, comment-splits-instance-info, missing-final-end, trailing-comment): the three places where
+   the reader peeks at the next line - parse_model_ports, parse_instance_info, the truth-table loop of parse_name -
+   look through peek_statement, which reads comment lines, skips blank lines and answers None at the end of the
+   file; the tokenizer ends a statement line at a word starting with "#".  Model: cl_hdr / cl_info / cl_rows stay
+   in their mode on a comment or blank line, classify_from closes the model at the end of input in every mode
+   (SStop is no longer produced); the condition "no # in a statement line" is gone from [supported].
+   The two refutation witnesses are supported documents, read as they stand: *)
+Example C18_header_gap_repaired :
+  supported doc_header_gap = true /\
+  exists n m, elab doc_header_gap = Ok n /\ denote doc_header_gap n /\ find_model nm_top (b_models n) = Some m /\
+    map (fun q => (p_name q, p_dir q)) (m_ports m) = gap_ports /\ same_wire m pin_a pin_i0.
+Proof. exact header_gap_repaired. Qed.
+Print Assumptions C18_header_gap_repaired.
 
-Theorem C18_sound_refuted_header_gap : exists d n, supported d = false /\ elab d = Ok n /\ ~ denote d n.
-Proof. exact sound_refuted_header_gap. Qed.
-Print Assumptions C18_sound_refuted_header_gap.
+Example C18_comment_in_info_repaired :
+  supported doc_comment_in_info = true /\
+  exists n m, elab doc_comment_in_info = Ok n /\ denote doc_comment_in_info n /\ find_model nm_top (b_models n) = Some m /\
+    map i_cname (m_insts m) = u1_names /\ map i_name (m_insts m) = u1_names /\ b_comments n = info_comment.
+Proof. exact comment_in_info_repaired. Qed.
+Print Assumptions C18_comment_in_info_repaired.
+
+(* comment lines and blank lines at every kind of line boundary (before and between the port lines, inside a
+   truth table, between an instance statement and each of its .cname/.attr/.param), no final .end: supported,
+   the netlist is what the file denotes, nothing is lost *)
+Example C18_gaps_faithful :
+  supported doc_gaps = true /\
+  exists n m, elab doc_gaps = Ok n /\ denote doc_gaps n /\ find_model nm_top (b_models n) = Some m /\
+    map i_cname (m_insts m) = gaps_cnames /\
+    map (fun i => length (i_covers i)) (m_insts m) = (2 :: 0 :: nil) /\
+    map (fun i => (length (i_attr i), length (i_param i))) (m_insts m) = ((0, 0) :: (1, 1) :: nil) /\
+    length (m_ports m) = 4 /\ m_clock m = clock_a /\ m_lib m = LWork /\ length (b_comments n) = 7.
+Proof. exact gaps_faithful. Qed.
+Print Assumptions C18_gaps_faithful.
+
+(* the end of the file closes the last model: after an instance statement, inside a truth table, in the header
+   (before the repair the reader raised StopIteration on the first two) *)
+Example C18_no_final_end_faithful :
+  forall d, In d (doc_no_end_inst :: doc_no_end_rows :: doc_no_end_hdr :: nil) ->
+  supported d = true /\ exists n, elab d = Ok n /\ denote d n /\ b_work n = (nm_top :: nil).
+Proof. exact no_final_end_faithful. Qed.
+Print Assumptions C18_no_final_end_faithful.
+
+(* the repair in general, on the line classifier of the model: a comment line ("#" c) or a blank line inserted at
+   ANY line boundary of an accepted document leaves it accepted, with the same statements and the comment at that
+   place - whatever the reader was doing there (header, truth table, instance info, plain statements, outside
+   a model); a blank line changes nothing at all of the netlist that is built *)
+Theorem C18_comment_lines_transparent : forall d1 d2 l r,
+  gap_line l -> classify (d1 ++ d2) = Ok r ->
+  exists s1 s2, r = s1 ++ s2 /\ classify (d1 ++ l :: d2) = Ok (s1 ++ gap_stmts l ++ s2).
+Proof. exact gap_insertion. Qed.
+Print Assumptions C18_comment_lines_transparent.
+
+Theorem C18_blank_line_irrelevant : forall d1 d2 n, elab (d1 ++ d2) = Ok n -> elab (d1 ++ nil :: d2) = Ok n.
+Proof. exact blank_line_irrelevant. Qed.
+Print Assumptions C18_blank_line_irrelevant.
+
+(* REPAIRED in the code (finding outputs-before-inputs-drops-inputs): .clock, .outputs, .inputs in this order are
+   all read, both ports have their direction, the input reaches the gate.  The document stays outside [supported]:
+   its conjunct hdr_sorted keeps the order .inputs* .outputs* .clock* (comments and blank lines anywhere), because
+   the connectivity proof treats an .inputs line only before the first .outputs line of its section; the
+   correspondence run compares model and reader on headers in every order *)
+Example C18_outputs_first_reads :
+  supported doc_outputs_first = false /\
+  exists n m, elab doc_outputs_first = Ok n /\ find_model nm_top (b_models n) = Some m /\
+    map (fun q => (p_name q, p_dir q)) (m_ports m) = of_ports /\
+    m_clock m = clock_c /\ same_wire m pin_a pin_i0.
+Proof. exact outputs_first_reads. Qed.
+Print Assumptions C18_outputs_first_reads.
 
 (* REPAIRED (was C18_sound_refuted_conn_capture: a .conn operand spelling the cable name a_0_b_0 that an
    earlier ".conn a b" gave the merged net captured that net).  The witness ".conn a b / .conn a_0_b_0 c" is
